@@ -35,14 +35,26 @@ pub struct GenIter<T> {
     /// second batch (a queue drain, a batch reader). len()/size_hint() describe the current batch.
     pub second: VecDeque<T>,
     pub gave_none: bool,
+    /// the iterator's own destructor panics (after the constructor has finished with it)
+    pub drop_panic: bool,
+}
+
+impl<T> Drop for GenIter<T> {
+    fn drop(&mut self) {
+        if self.drop_panic && !std::thread::panicking() {
+            self.drop_panic = false;
+            // what is still inside goes first (the fields are dropped after this body anyway)
+            std::panic::panic_any(tok::Injected);
+        }
+    }
 }
 
 impl<T> GenIter<T> {
     pub fn honest(items: Vec<T>, hint_mode: u8) -> Self {
-        GenIter { items: items.into(), hint_mode, lies: vec![0], asks: 0, yielded: 0, second: VecDeque::new(), gave_none: false }
+        GenIter { items: items.into(), hint_mode, lies: vec![0], asks: 0, yielded: 0, second: VecDeque::new(), gave_none: false, drop_panic: false }
     }
     pub fn honest_nonfused(items: Vec<T>, second: Vec<T>, hint_mode: u8) -> Self {
-        GenIter { items: items.into(), hint_mode, lies: vec![0], asks: 0, yielded: 0, second: second.into(), gave_none: false }
+        GenIter { items: items.into(), hint_mode, lies: vec![0], asks: 0, yielded: 0, second: second.into(), gave_none: false, drop_panic: false }
     }
     /// the answer to the next len()/size_hint() question (the schedule advances with every question)
     fn reported(&self) -> usize {
@@ -537,7 +549,7 @@ impl<Hd: TokP, El: TokP> FaultEngine<Hd, El> {
         // lie offsets in -2..=2 for up to three successive answers
         let lie = |b: u8| (b % 5) as i64 - 2;
         let lies = if c.p(2) & 1 == 0 { vec![0] } else { vec![lie(c.p(3)), lie(c.p(4)), lie(c.p(5))] };
-        let lying = lies.iter().any(|l| *l != 0);
+        let lying = lies.iter().any(|l| *l != 0) && c.p(7) < 240;
         let hint_mode = if api >= 2 && api != 15 { c.p(6) % 3 } else { 0 };
         let (items, ids) = toks::<El>(len, 2000);
         let h = Hd::make(9);
@@ -546,7 +558,15 @@ impl<Hd: TokP, El: TokP> FaultEngine<Hd, El> {
         let k = c.p(7) as i64 % 24; // 0 = no panic
         *what = format!("{} over {} items, len()/size_hint() offsets {:?}, hint mode {}, panic at callback {}", FAULT_APIS[api], len, lies, hint_mode, k);
         rt::run::trace_stream(&what);
-        let it = GenIter { items: items.into(), hint_mode, lies, asks: 0, yielded: 0, second: VecDeque::new(), gave_none: false };
+        // one case in sixteen: honest iterator, no callback fault, but the iterator's own destructor panics once
+        // the constructor is done with it (a by-value argument dropped after the result was built)
+        let iter_drop_panics = c.p(7) >= 240;
+        let (lies, k) = if iter_drop_panics { (vec![0], 0) } else { (lies, k) };
+        if iter_drop_panics {
+            what.push_str(" [the iterator's own Drop panics]");
+            rt::run::trace_stream(&what);
+        }
+        let it = GenIter { items: items.into(), hint_mode, lies, asks: 0, yielded: 0, second: VecDeque::new(), gave_none: false, drop_panic: iter_drop_panics };
         reset_len_asks();
         tok::panic_at(k);
         enum Out<Hd: TokP, El: TokP> {
@@ -570,7 +590,10 @@ impl<Hd: TokP, El: TokP> FaultEngine<Hd, El> {
         let fired = tok::callbacks() as i64 >= k && k > 0;
         tok::panic_at(0);
         drop(hopt);
-        let injected = fired;
+        let injected = fired || iter_drop_panics;
+        if iter_drop_panics {
+            labels.push("iterator-drop-panicked");
+        }
         match r {
             Ok((out, _eff)) => {
                 // a returned handle must hold exactly the items that were yielded, in order
